@@ -11,7 +11,10 @@ use std::time::Instant;
 
 use serde_json::{json, Map, Value};
 
-pub const VERIF_ROOT: &str = "/verif";
+/// Root for evidence/, replays/ and KNOWN_FINDINGS.txt (env VERIF_ROOT overrides; used only for development copies).
+pub fn verif_root() -> PathBuf {
+    PathBuf::from(std::env::var("VERIF_ROOT").unwrap_or_else(|_| "/verif".to_string()))
+}
 
 #[derive(Clone, Copy, PartialEq, Eq, Debug)]
 pub enum Tier {
@@ -320,7 +323,7 @@ struct Findings {
 
 fn load_findings() -> Findings {
     let mut listed = BTreeMap::new();
-    let p = Path::new(VERIF_ROOT).join("KNOWN_FINDINGS.txt");
+    let p = verif_root().join("KNOWN_FINDINGS.txt");
     if let Ok(s) = std::fs::read_to_string(p) {
         for line in s.lines() {
             let line = line.trim();
@@ -393,7 +396,7 @@ impl Run {
         let findings = load_findings();
         let mut unlisted = 0usize;
         let mut known_printed = BTreeSet::new();
-        let replay_dir = Path::new(VERIF_ROOT).join("replays").join(&self.prop);
+        let replay_dir = verif_root().join("replays").join(&self.prop);
         let mut vio_summaries = vec![];
         let vs = std::mem::take(&mut self.all.violations);
         for (i, v) in vs.iter().enumerate() {
@@ -467,7 +470,7 @@ impl Run {
             "wall_s": (self.start.elapsed().as_secs_f64() * 100.0).round() / 100.0,
             "violations": unlisted,
         });
-        let evdir = Path::new(VERIF_ROOT).join("evidence");
+        let evdir = verif_root().join("evidence");
         std::fs::create_dir_all(&evdir).ok();
         let evp = evdir.join(format!("{}.json", self.prop));
         if self.args.replay.is_none() {
